@@ -311,6 +311,42 @@ def mp_controls(tmp, out):
     return ok
 
 
+NEXT_ACTIONS = ["CallConsistency", "BCReturn", "Filter", "SearchBound", "SearchBranch", "SearchFail", "Yield", "ResumeEnum",
+                "Exhausted", "Incumbent", "OptExhausted", "ShLoop", "ShMain", "ShPick", "ShJudge"]
+WITNESSES = [("mixed", ["Never_Solution", "Never_Done", "Never_Disabled", "Never_Backtrack", "Never_PassFails", "Never_ThreeLevels"]),
+             ("opt", ["Never_Incumbent"]), ("shaving", ["Never_ShavingShaves"]), ("cap", ["Never_CapacityError"])]
+
+
+def vacuity_controls(tmp, out):
+    """The model-checked invariants are not vacuous: every action of NucsMech's Next is taken on the families, and the
+    states the invariants talk about (a reported solution, a disabled constraint, a failed pass, a shave, an
+    incumbent, the capacity error ...) are REACHED - each Never_* 'invariant' must be violated."""
+    import re
+    ok = True
+    taken = {}
+    for fam, names in WITNESSES:
+        f, n = mc.gen_family(tmp, fam, 300, 1)
+        cfg = tmp / f"MC_cov_{fam}.cfg"
+        cfg.write_text("SPECIFICATION Spec\nCHECK_DEADLOCK FALSE\nINVARIANT TypeOK\n")
+        r = run_tlc("NucsMech", str(cfg), env={"FAMILY": str(f)}, workers=NCPU, timeout=900, scratch=tmp, extra=["-coverage", "1"])
+        if r.error:
+            raise Machinery(f"coverage run failed on {fam}: {r.error}")
+        for m in re.finditer(r"^<(\w+) line \d+, col \d+ to line \d+, col \d+ of module NucsMech>: (\d+):(\d+)", r.out, re.M):
+            taken[m.group(1)] = max(taken.get(m.group(1), 0), int(m.group(2)))
+        for name in names:
+            c2 = tmp / f"MC_wit_{name}.cfg"
+            c2.write_text(f"SPECIFICATION Spec\nCHECK_DEADLOCK FALSE\nINVARIANT {name}\n")
+            r2 = run_tlc("NucsMech", str(c2), env={"FAMILY": str(f)}, workers=NCPU, timeout=900, scratch=tmp)
+            hit = name in mc._violated(r2.out)
+            out.append({"control": f"reachable:{name[6:]}@{fam}", "ok": hit, "expected": "the Never_ invariant is violated (state reached)"})
+            ok = ok and hit
+    for a in NEXT_ACTIONS:
+        hit = taken.get(a, 0) > 0
+        out.append({"control": f"action-taken:{a}", "ok": hit, "distinct_states_found": taken.get(a, 0)})
+        ok = ok and hit
+    return ok
+
+
 def run(tier, seed, replay):
     out = []
     with Scratch("controls") as tmp:
@@ -318,6 +354,7 @@ def run(tier, seed, replay):
         ok = lemma_controls(tmp, out) and ok
         ok = models_controls(tmp, out) and ok
         ok = mp_controls(tmp, out) and ok
+        ok = vacuity_controls(tmp, out) and ok
         ok = trace_controls(tmp, out) and ok
         ok = spec_controls(tmp, out) and ok
     (VERIF / "out").mkdir(exist_ok=True)
